@@ -154,6 +154,33 @@ def check(case, obs):
     if has_feat and len(free) > 0 and "solve" not in obs:
         fails.append(("harmonic/no-solve", "bordered/feature mesh with free elements but no linear solve was performed"))
 
+    # ---- edge rotations (face-based field): the matching rule  e^{i k rot} = f2/|f2| conj(f1/|f1|) e^{i k (a1 - a2)},
+    #      |rot| <= pi/k  (hypothesis H1 of C18_index_quantum_partial)
+    if elem == "faces" and np.all(np.abs(np.abs(final) - 1) < 1e-6):
+        he = {}
+        for t, f in enumerate(F):
+            for k in range(3):
+                he[(f[k], f[(k + 1) % 3])] = t
+        for ie, (a, b) in enumerate(obs["edges"]):
+            t1, t2 = he.get((a, b)), he.get((b, a))
+            if t1 is None or t2 is None:
+                if abs(obs["rot"][ie]) > 1e-12:
+                    fails.append(("rotation/border", "border edge %d carries a rotation %.3g" % (ie, obs["rot"][ie])))
+                    break
+                continue
+            Ev = V[b] - V[a]
+            w = []
+            for t in (t1, t2):
+                X, Y = np.array(B[t][0]), np.array(B[t][1])
+                c = complex(Ev @ X, Ev @ Y)
+                w.append(c / abs(c))
+            lhs = cmath.exp(1j * order * obs["rot"][ie])
+            rhs = final[t2] * final[t1].conjugate() * (w[0] * w[1].conjugate()) ** order
+            if abs(lhs - rhs) > 1e-6 or abs(obs["rot"][ie]) > math.pi / order + 1e-9:
+                fails.append(("rotation/matching", "edge %d: rotation %.6g does not match the closest of the %d branches "
+                                                   "(|e^{ik rot} - expected| = %.3g)" % (ie, obs["rot"][ie], order, abs(lhs - rhs))))
+                break
+
     # ---- singularity indices (face-based field): quantum at interior vertices, sum = 4 chi
     if elem == "faces":
         s = np.array(obs["singuls"])
